@@ -444,4 +444,50 @@ pub mod verif {
             notifications,
         )
     }
+
+    /// Run the real initiator path ([`Worker::_process`] with [`FetchRequest::Initiator`]): the
+    /// worker's clone-into-temporary-directory / pull decision, the fetch itself and what the
+    /// worker does with its result.
+    #[allow(clippy::too_many_arguments)]
+    pub fn initiator(
+        nid: NodeId,
+        storage: Storage,
+        policies: policy::Config<policy::store::Read>,
+        handle: Handle,
+        rid: RepoId,
+        remote: NodeId,
+        refs_at: Option<Vec<RefsAt>>,
+        stream: StreamId,
+        channels: Channels,
+    ) -> FetchResult {
+        let (_tx, tasks) = chan::unbounded();
+        let notifications = notifications::StoreWriter::memory().expect("memory store");
+        let mut worker = Worker {
+            nid,
+            storage,
+            fetch_config: FetchConfig {
+                limit: FetchLimit::default(),
+                local: nid,
+                expiry: garbage::Expiry::default(),
+            },
+            tasks,
+            handle: handle.clone(),
+            policies,
+            notifications: notifications.clone(),
+            cache: cob::cache::StoreWriter::memory().expect("memory store"),
+            db: radicle::node::Database::memory().expect("memory store"),
+        };
+        let channels = channels::ChannelsFlush::new(handle, channels, remote, stream);
+
+        worker._process(
+            FetchRequest::Initiator {
+                rid,
+                remote,
+                refs_at,
+            },
+            stream,
+            channels,
+            notifications,
+        )
+    }
 }
